@@ -86,6 +86,11 @@ func (c09) Gen(seed uint64, idx int, tier string) *Scenario {
 	if long {
 		sc.Class = "long"
 	}
+	if r.Chance(1, 40) {
+		// programs at the compiler's own limits are accepted programs too (1024 locals, deep nesting, many blocks)
+		sc.Src = gen.LimitProgram(r, prng.Pick(r, []string{"locals", "blocklocals", "blocks", "manyblocks", "rightnest", "deepblocks-vars", "manyconsts"}), false)
+		sc.Class = "limit"
+	}
 	sc.Name = progName(r)
 	sc.SetStr("partition", prng.Pick(r, []string{"whole", "bytewise", "fixed", "geometric", "twocut", "boundaries", "page", "zeros", "eofdata", "allcuts", "boundaries"}))
 	sc.SetInt("pseed", r.Intn(1<<30))
